@@ -53,3 +53,24 @@ Definition ustage_of (bi : list name) (ns : list (list name)) (p : program) : na
   if u1_block p && nodup_events (imp_events (bsrcs_block false p)) then 1
   else if u2_block p && imports_once bi ns p && nodup_events (imp_events (bsrcs_block false p)) then 2
   else if u3_block p && imports_once bi ns p && nodup_events (imp_events (bsrcs_block false p)) then 3 else 0.
+
+(* the same for what tidy-imports runs: the report with parse_docstrings=True against the trace with the doctest examples *)
+Definition unused_doc_sound_b (bi : list name) (ns : list (list name)) (p : program) : bool :=
+  let tr := pysem_doc bi ns p in
+  forallb (fun u : nat * import => negb (existsb (fun r : rd => is_bound_to (fst u) (snd u) (snd r)) tr))
+          (snd (finder_doc bi ns p)).
+
+(* the fragment of the theorems about the missing list of scan_for_import_issues (tracking on): stage 2 / 3 code whose
+   import statements, wherever they stand, bind one-component keys (ScanMissing) *)
+Definition tstage_of (p : program) : nat :=
+  if ui_block p then (if s2_block p then 2 else if s3_block p then 3 else 0) else 0.
+Definition tsound_b (bi : list name) (ns : list (list name)) (p : program) : bool :=
+  let miss := fst (finder bi ns true p) in
+  forallb (fun r : rd => negb (is_unbound (snd r)) ||
+                         existsb (fun m : nat * dotted => Nat.eqb (fst m) (fst (fst r)) && root_is (snd (fst r)) (snd m)) miss)
+          (pysem bi ns p).
+Definition tprecise_b (bi : list name) (ns : list (list name)) (p : program) : bool :=
+  let tr := pysem bi ns p in
+  forallb (fun m : nat * dotted =>
+             existsb (fun r : rd => Nat.eqb (fst (fst r)) (fst m) && root_is (snd (fst r)) (snd m) && is_failing (snd r)) tr)
+          (fst (finder bi ns true p)).
